@@ -254,9 +254,32 @@ def reuse_probe(ctx, which):
     return viol, n
 
 
+def vertices_check(ctx):
+    """hyperrectangle_get_vertices returns every one of the 2^m corners (as a set; degenerate edges give repeated rows)"""
+    import itertools
+    from vopy.utils.utils import hyperrectangle_get_vertices
+    rng = ctx.rng
+    viol, n = [], 0
+    for m in (1, 2, 3, 4, 5):
+        for _ in range(3 if ctx.quick else 20):
+            lo = np.array([rng.randint(-8, 8) / 4.0 for _ in range(m)])
+            up = lo + np.array([rng.choice([0.0, 0.25, 1.0, 2.5]) for _ in range(m)])
+            keep = (lo.copy(), up.copy())
+            V = np.asarray(hyperrectangle_get_vertices(lo, up))
+            n += 1
+            want = {tuple(c) for c in itertools.product(*[(float(a), float(b)) for a, b in zip(keep[0], keep[1])])}
+            got = {tuple(float(x) for x in r) for r in V}
+            if V.shape != (2 ** m, m) or got != want or not (np.array_equal(lo, keep[0]) and np.array_equal(up, keep[1])):
+                viol.append({"signature": "rect-vertices-incomplete", "message": f"hyperrectangle_get_vertices(lower={keep[0].tolist()}, upper={keep[1].tolist()}) returned shape {V.shape} with {len(got)} distinct rows; missing corners {sorted(want - got)[:4]}, spurious {sorted(got - want)[:4]}", "replay": {"vertices": True, "lower": keep[0].tolist(), "upper": keep[1].tolist()}})
+    return viol, n
+
+
 def run(ctx):
     cases = gen_cases(ctx)
     viol, stats = evaluate(ctx, cases)
+    vv, vn = vertices_check(ctx)
+    viol = viol + vv
+    stats["vertex_enumerations"] = vn
     rv, rn = reuse_probe(ctx, "dominated")
     viol = viol + rv
     stats["in_place_update_queries"] = rn
@@ -271,6 +294,9 @@ def run(ctx):
 
 def replay(ctx, data):
     r = data["replay"]
+    if r.get("vertices"):
+        vv, _ = vertices_check(ctx)
+        return bool(vv), (vv[0]["message"] if vv else "all corners enumerated")
     if "reuse" in r:
         rv, _ = reuse_probe(ctx, r["reuse"])
         return bool(rv), (rv[0]["message"] if rv else "in-place updated regions answer as fresh ones")
